@@ -1,6 +1,8 @@
 import IrefVerif.Lemmas.PctBytes
 import IrefVerif.Lemmas.Nsegs
 import IrefVerif.Spec.Equiv
+import IrefVerif.Lemmas.IriBytes
+import IrefVerif.Props.Valid
 
 /-!
 # C07 — equality is the documented normalising equivalence, and is total
@@ -10,8 +12,14 @@ equality is equality of the percent-decoded octets and never panics (`none` is i
 for every well-escaped text, in particular for octets that are not UTF-8.  The documented
 equivalence `Spec.key` is an equality of normal forms, hence reflexive, symmetric, transitive.
 Path level: the dot-free segment sequence compared by the model is the specification's
-`nsegs` (C09).  The struct-level impls are `&&`-chains of these; their agreement with
-`Spec.key` on the real crate is the `cmp` oracle.
+`nsegs` (C09).
+Struct level (`ref_eq`, `full_eq`, and their end-to-end forms `uriRef_eq`, `uri_eq`, `iriRef_eq`,
+`iri_eq`): for every pair of values the checked constructors accept — octet strings, the IRI
+family through its UTF-8 decoding — the model of `==` (the derived `PartialEq` of the parts
+struct: a short-circuit `&&` over scheme, authority, path, query, fragment) returns
+`some (decide (key a = key b))`: it never panics and decides exactly the documented equivalence.
+Reflexivity, symmetry and transitivity of `==` follow.  Stand-alone authorities and paths:
+`authority_eq`, `path_eq`.  The agreement of the model with the real crate is the `cmp` stream.
 -/
 
 namespace IrefVerif.Props.C07
@@ -53,6 +61,85 @@ theorem component_eq_trans (a b c : Text) (ha : wellEscaped a = true) (hb : well
 
 /-- literal comparison of scheme and port: the model compares the bytes -/
 theorem scheme_literal (a b : Text) : optEq (fun x y => some (x == y)) (some a) (some b) = some (a == b) := rfl
+
+/-! ## whole references and full URIs/IRIs -/
+
+/-- **`==` on references decides equality of keys** (any grammar with the side conditions) -/
+theorem ref_eq (G : Grammar) (ok : Grammar.Ok G) (oka : Grammar.OkAuth G) (we : Grammar.OkWE G)
+    (a b : Text) (ha : RE.Matches G.reference a) (hb : RE.Matches G.reference b) :
+    refEq a b = some (decide (key a = key b)) := refEq_eq_key G ok oka we a b ha hb
+
+theorem full_eq (G : Grammar) (ok : Grammar.Ok G) (oka : Grammar.OkAuth G) (we : Grammar.OkWE G)
+    (a b : Text) (ha : RE.Matches G.full a) (hb : RE.Matches G.full b) :
+    fullEq a b = some (decide (key a = key b)) := fullEq_eq_key G ok oka we a b ha hb
+
+/-- end to end: every pair of `UriRef` values the constructor accepts -/
+theorem uriRef_eq (a b : Text) (ha8 : ∀ c ∈ a, c < 256) (hb8 : ∀ c ∈ b, c < 256)
+    (ha : accepts .uriRef a = true) (hb : accepts .uriRef b = true) :
+    refEq a b = some (decide (key a = key b)) :=
+  ref_eq uriG uriG_ok uriG_okAuth uriG_okWE a b (Valid.uriRef_octets a ha8 ha) (Valid.uriRef_octets b hb8 hb)
+
+theorem uri_eq (a b : Text) (ha8 : ∀ c ∈ a, c < 256) (hb8 : ∀ c ∈ b, c < 256)
+    (ha : accepts .uri a = true) (hb : accepts .uri b = true) :
+    fullEq a b = some (decide (key a = key b)) :=
+  full_eq uriG uriG_ok uriG_okAuth uriG_okWE a b (Valid.uri_octets a ha8 ha) (Valid.uri_octets b hb8 hb)
+
+/-- … of `IriRef` values: octets whose UTF-8 decoding is a word of RFC 3987 -/
+theorem iriRef_eq (a b : Text) (ha8 : ∀ c ∈ a, c < 256) (hb8 : ∀ c ∈ b, c < 256)
+    (ha : accepts .iriRef a = true) (hb : accepts .iriRef b = true) :
+    refEq a b = some (decide (key a = key b)) :=
+  ref_eq iriGB iriGB_ok iriGB_okAuth iriGB_okWE a b (Valid.iriRef_octets a ha8 ha) (Valid.iriRef_octets b hb8 hb)
+
+theorem iri_eq (a b : Text) (ha8 : ∀ c ∈ a, c < 256) (hb8 : ∀ c ∈ b, c < 256)
+    (ha : accepts .iri a = true) (hb : accepts .iri b = true) :
+    fullEq a b = some (decide (key a = key b)) :=
+  full_eq iriGB iriGB_ok iriGB_okAuth iriGB_okWE a b (Valid.iri_octets a ha8 ha) (Valid.iri_octets b hb8 hb)
+
+/-- reflexive, symmetric, transitive — and total (`some _`) — on valid references -/
+theorem ref_eq_refl (G : Grammar) (ok : Grammar.Ok G) (oka : Grammar.OkAuth G) (we : Grammar.OkWE G)
+    (a : Text) (ha : RE.Matches G.reference a) : refEq a a = some true := by
+  rw [ref_eq G ok oka we a a ha ha]; simp
+
+theorem ref_eq_symm (G : Grammar) (ok : Grammar.Ok G) (oka : Grammar.OkAuth G) (we : Grammar.OkWE G)
+    (a b : Text) (ha : RE.Matches G.reference a) (hb : RE.Matches G.reference b) : refEq a b = refEq b a := by
+  rw [ref_eq G ok oka we a b ha hb, ref_eq G ok oka we b a hb ha]
+  congr 1
+  by_cases h : key a = key b
+  · simp [h]
+  · have h' : ¬ key b = key a := fun e => h e.symm
+    simp [h, h']
+
+theorem ref_eq_trans (G : Grammar) (ok : Grammar.Ok G) (oka : Grammar.OkAuth G) (we : Grammar.OkWE G)
+    (a b c : Text) (ha : RE.Matches G.reference a) (hb : RE.Matches G.reference b)
+    (hc : RE.Matches G.reference c) (h1 : refEq a b = some true) (h2 : refEq b c = some true) :
+    refEq a c = some true := by
+  rw [ref_eq G ok oka we a b ha hb] at h1
+  rw [ref_eq G ok oka we b c hb hc] at h2
+  rw [ref_eq G ok oka we a c ha hc]
+  have e1 : key a = key b := by simpa using h1
+  have e2 : key b = key c := by simpa using h2
+  simp [e1, e2]
+
+/-- stand-alone authorities and paths obey the same rules -/
+theorem authority_eq (G : Grammar) (oka : Grammar.OkAuth G) (we : Grammar.OkWE G) (a b : Text)
+    (ha : RE.Matches G.authority a) (hb : RE.Matches G.authority b) :
+    authorityEq a b = some (decide (authKey a = authKey b)) := authorityEq_key G oka we a b ha hb
+
+theorem path_eq (p q : Text) (hp : PathText p) (hq : PathText q)
+    (wp : wellEscaped p = true) (wq : wellEscaped q = true) :
+    pathEq p q = some (decide (pathKey p = pathKey q)) := pathEq_key p q hp hq wp wq
+
+/-- the hypotheses of `path_eq` hold for every valid stand-alone path of either family -/
+theorem uri_path_ok (p : Text) (h : RE.Matches Rfc3986.path p) : PathText p ∧ wellEscaped p = true := by
+  refine ⟨?_, wellEscaped_of_sub (by decide) h⟩
+  intro c hc
+  have := matches_excl (r := Rfc3986.path) (ds := [0x3F, 0x23]) (by decide) h c hc
+  simp only [List.mem_cons, List.not_mem_nil, or_false, not_or] at this
+  exact this
+
+/-- non-vacuity: the hypotheses are satisfiable and the verdict is computed -/
+example : refEq [0x61, 0x2F, 0x2E, 0x2F, 0x62] [0x61, 0x2F, 0x25, 0x36, 0x32] = some true := by decide
+example : RE.Matches uriG.reference [0x61, 0x2F, 0x62] := RE.matchesB_iff.mp (by decide)
 
 /-- octets that are not UTF-8 compare without panicking, and an overlong form is not equated
 with the well-formed character it would lenient-decode to -/
